@@ -26,6 +26,30 @@ CLAIMED = {
             "boundary + seeded random on u32/u64/usize, hex, UTF-8 and the calendar; the reference is independent of the code (decimal "
             "arithmetic in TLA+, CP437 table from Python), debug/release parity is compared file by file.",
             "DESIGN.md 8 (C17), 5.3", TB),
+    "C01": ("model_checking",
+            "TLA+ reference codec (ZvtLayout + ZvtCodec): TLC enumerates boundary values of all 55 types with reference bytes (Gen_Values), the "
+            "real decoder/encoder run on them and on seeded random bodies, TLC validates every record (TraceCodec) incl. canonicity",
+            "Bounded-exhaustive over structure (every field x every boundary value x others minimal/typical, every Option absent), sampled over "
+            "large value spaces; the oracle (reference codec in TLA+) is independent of the derive attributes.",
+            "DESIGN.md 8 (C01), 5", TB),
+    "C03": ("model_checking",
+            "independent layout table in TLA+ (ZvtLayout.tla) interpreted by the reference codec; byte and field-wise comparison with the real "
+            "codec in both directions, judged by TLC (TraceCodec); captured blobs included",
+            "Every field of every shipped type is exercised at each boundary value; the table is a separate artefact, so a change made to encoder "
+            "and decoder together (tag number, length style, encoding, order, control field) is a mismatch.",
+            "DESIGN.md 8 (C03)", TB),
+    "C13": ("model_checking",
+            "TLC re-assembles reference-encoded tagged groups (Gen_C13: permutations, duplicates, removals, foreign tags) with the outcome the "
+            "property demands; the real decoder runs on every case; TLC judges (TraceCodec P13 flags)",
+            "Exhaustive over permutations of windows of up to 4 (quick) / 6 (thorough) present tagged fields of every shipped type and over every "
+            "duplicate / removal / foreign-splice position; random field orders beyond.",
+            "DESIGN.md 8 (C13)", TB),
+    "C14": ("model_checking",
+            "TLC generates canonical packets with suffixes and nested containers with inserted bytes (Gen_C13, C14 mode); the real decoder runs on "
+            "each; TLC judges value equality and the exact remainder (TraceCodec P14 flags)",
+            "All 256 single-byte suffixes plus longer ones for three base values of every command type, 5 suffixes on a sample of all boundary "
+            "values, every tagged nested container with bytes inserted behind it.",
+            "DESIGN.md 8 (C14)", TB),
 }
 
 PENDING = {}
